@@ -1,7 +1,8 @@
 CONSTANTS Graphs = {"line", "tri", "dead", "selfl", "pair"} T = 3 QE = {0, 1, 2, 3} QN = {0, 1, 2} NodeModes = {TRUE, FALSE} NEs = {TRUE, FALSE}
   Widths = {0, 1, 2} Cuts = {"none", "dist", "init", "prob", "both"} MaxOps = 3 SAMPLE = 1 Moves = {"m11"} EMIT = FALSE
-  ExhGraphs = {} Debugs = {FALSE}
+  ExhGraphs = {} Debugs = {FALSE} REUSE = TRUE
 SPECIFICATION Spec
 INVARIANT C03
 INVARIANT C03b
+INVARIANT ReuseIsFresh
 CHECK_DEADLOCK FALSE
